@@ -14,6 +14,8 @@ LIST_METHODS = {"append", "extend", "pop", "copy", "insert", "remove", "clear", 
                 "popleft", "appendleft"}
 DICT_METHODS = {"get", "keys", "values", "items", "update", "pop", "copy", "setdefault", "clear", "popitem"}
 EXTERN_FIELDS = {"Thread": {"ident", "name", "daemon"}, "UUID": {"hex"}}
+EXTERN_OBJECT_CLASSES = {"Lock", "Future", "Thread", "Event", "ThreadPoolExecutor", "proto", "UUID", "Formatter",
+                         "dict_keys", "dict_items", "dict_values", "OrderedDict"}
 FRAME_FIELDS = {"f_code", "f_lineno", "f_locals", "f_back", "f_globals", "co_filename", "co_name", "co_firstlineno"}
 
 
@@ -75,8 +77,15 @@ class CallMixin:
             cid = self.class_of(obj, "getattr-class")
         if self.is_host_class(cid):
             if attr == "__class__":
-                return VRef(z3.simplify(z3.IntVal(TYPEBASE) + z3.Select(self.st.typeof, Val.r(obj))))
+                tt = z3.simplify(z3.IntVal(TYPEBASE) + z3.Select(self.st.typeof, Val.r(obj)))
+                self.st.ghost.setdefault("type_terms", []).append(tt)
+                return VRef(tt)
             res = self.host_op("getattr_" + attr, obj, node)
+            if attr == "__dict__":
+                # trusted: an instance's attribute dictionary, when it exists, is an exact dict owned by the host
+                self.ctx.assume(z3.And(Val.is_VRef(res), z3.Select(self.st.typeof, Val.r(res)) == self.table.id("dict"),
+                                       self.dlen(Val.r(res)) >= 0))
+                self.st.ghost.setdefault("host_owned", []).append(res)
             return res
         nm = self.table.names[cid]
         if attr == "__class__":
@@ -98,7 +107,9 @@ class CallMixin:
             # extern object classes (Lock, Future, Thread, Event, proto ...)
             if attr in EXTERN_FIELDS.get(nm, ()):
                 return self.st.get_field(Val.r(obj), attr)
-            return self.st.register(BoundMethod(BuiltinFn("%s.%s" % (nm, attr)), obj))
+            if nm in EXTERN_OBJECT_CLASSES:
+                return self.st.register(BoundMethod(BuiltinFn("%s.%s" % (nm, attr)), obj))
+            return self._attr_error(node, default)
         if attr == "__dict__":
             return self.instance_dict(obj, ci, node)
         mem = self.index.lookup_member(ci, attr)
@@ -310,6 +321,8 @@ class CallMixin:
                 mem = self.index.lookup_member(ci, "__call__")
                 if mem:
                     return self.call_function(mem[1], None, [fv] + args, kwargs, node, anchor)
+            if self.not_agent_object(fv):
+                return self.host_op("call", fv, node)      # a host-owned callable (function, builtin, ...)
             raise Unsupported("call of non-concrete callable %s" % fv)
         if isinstance(ob, FuncObj):
             return self.call_function(ob.fi, ob.closure, args, kwargs, node, anchor)
